@@ -104,12 +104,31 @@ class Folder:
         if isinstance(node, ast.UnaryOp) and type(node.op) in _UN:
             return _UN[type(node.op)](f(node.operand))
         if isinstance(node, (ast.List, ast.Tuple, ast.Set)):
-            vals = [f(e) for e in node.elts]
+            vals = []
+            for e in node.elts:
+                if isinstance(e, ast.Starred):
+                    vals.extend(list(f(e.value)))
+                else:
+                    vals.append(f(e))
             return vals if isinstance(node, ast.List) else tuple(vals) if isinstance(node, ast.Tuple) else set(vals)
         if isinstance(node, ast.Dict):
             return {f(k): f(v) for k, v in zip(node.keys, node.values)}
         if isinstance(node, ast.JoinedStr):
-            raise AnalysisError("f-string in constant")
+            out = ""
+            for part in node.values:
+                if isinstance(part, ast.Constant):
+                    out += str(part.value)
+                elif isinstance(part, ast.FormattedValue):
+                    v = f(part.value)
+                    if part.conversion == ord("r"):
+                        v = repr(v)
+                    elif part.conversion == ord("s"):
+                        v = str(v)
+                    spec = f(part.format_spec) if part.format_spec is not None else ""
+                    out += format(v, spec)
+                else:
+                    raise AnalysisError("f-string part not understood")
+            return out
         if isinstance(node, ast.Subscript):
             base = f(node.value)
             sl = node.slice
